@@ -165,6 +165,22 @@ def run_pad(case, seed, R):
             # crop undoes pad exactly
             back = R.call(fttools.crop_center, got, (n0, n1))
             R.expect_equal(back, a, f'crop(pad):{par(n0)}->{par(N0)},{par(n1)}->{par(N1)}', 'crop_center(pad2d(x)) != x')
+    # data kinds: the container the caller handed in is kept (dtype) and so is every value, whatever the type of the fill value
+    if grow:
+        for kind, b0 in (('frac', a + 0.25), ('complex', a * (1 + 0.5j) + 0.125j), ('float32', (a + 0.5).astype(np.float32)), ('int', a.astype(np.int64))):
+            for value in (0, 1, -2, 7.5):
+                if kind == 'int' and value == 7.5:
+                    continue
+                want = ref_pad(np.real(b0).astype(float), (N0, N1), 'constant', value).astype(complex if kind == 'complex' else float)
+                if kind == 'complex':
+                    want = want + 1j * ref_pad(np.imag(b0).astype(float), (N0, N1), 'constant', 0)
+                got = R.call(fttools.pad2d, b0.copy(), out_shape=(N0, N1), value=value, mode='constant')
+                if got is FAILED:
+                    continue
+                R.expect_equal(np.asarray(got).astype(want.dtype), want, sig + f':constant:{kind}-data', f'pad2d of {kind} data {b0.shape}->{(N0, N1)} with fill value {value!r}: values not preserved')
+                R.expect(np.asarray(got).dtype == b0.dtype, sig + f':constant:{kind}-data:dtype', f'pad2d of {b0.dtype} data with fill value {value!r} returned {np.asarray(got).dtype}')
+                back = R.call(fttools.crop_center, got, (n0, n1))
+                R.expect_equal(back, b0, f'crop(pad):{kind}-data', f'crop_center(pad2d(x, value={value!r})) != x for {kind} data')
     # crop_center on its own inverse direction: crop the big labelled array down to (n0,n1)
     b = labels((N0, N1))
     got = R.call(fttools.crop_center, b, (n0, n1))
@@ -247,25 +263,28 @@ def run_slices(case, seed, R):
     # coordinates whose zero is not at n//2 (an off-centre crop carries its coordinates along; x/y assigned through the
     # setters; Slices built directly): the slices still pass through the sample whose coordinate is zero
     from prysm._richdata import Slices
-    for i0 in sorted({0, n0 // 2 - 1, n0 // 2 + 1, n0 - 1} & set(range(n0))):
-        for j0 in sorted({0, n1 // 2 - 1, n1 // 2 + 1, n1 - 1} & set(range(n1))):
-            xv, yv = (np.arange(n1) - j0) * dx, (np.arange(n0) - i0) * dx
-            X, Y = np.meshgrid(xv, yv)
-            rd = RichData(a.copy(), dx, 0.5)
-            rd.x, rd.y = X, Y
-            for how, mk in (('setters', lambda ts: rd.slices(ts)), ('direct', lambda ts: Slices(a, xv, yv, twosided=ts))):
-                s = R.call(mk, True)
-                if s is FAILED:
-                    continue
-                R.expect_equal(s.x[1], a[i0, :], sig + ':shifted-origin:x', f'{how}: x slice is not the row of the zero y coordinate (row {i0} of {n0})')
-                R.expect_equal(s.y[1], a[:, j0], sig + ':shifted-origin:y', f'{how}: y slice is not the column of the zero x coordinate (column {j0} of {n1})')
-                s = R.call(mk, False)
-                if s is FAILED:
-                    continue
-                R.expect_equal(s.x[1], a[i0, j0:], sig + ':shifted-origin:x1', f'{how}: one-sided x slice, origin at {(i0, j0)}')
-                R.expect_equal(s.y[1], a[i0:, j0], sig + ':shifted-origin:y1', f'{how}: one-sided y slice, origin at {(i0, j0)}')
-                R.expect(len(s.x[0]) > 0 and s.x[0][0] == 0 and len(s.y[0]) > 0 and s.y[0][0] == 0, sig + ':shifted-origin:onesided-origin',
-                         f'{how}: one-sided slice does not start at coordinate 0 (origin at {(i0, j0)})')
+    origins = [(i0, j0) for i0 in sorted({0, n0 // 2 - 1, n0 // 2 + 1, n0 - 1} & set(range(n0)))
+               for j0 in sorted({0, n1 // 2 - 1, n1 // 2 + 1, n1 - 1} & set(range(n1)))]
+    # orientation: ascending; x descending (mirrored); y descending (y-up image convention) -- the latter two at a few origins only
+    flips = [(o, (1, 1)) for o in origins] + [(o, f) for o in origins[:1] + origins[-1:] + origins[len(origins) // 2:len(origins) // 2 + 1] for f in ((-1, 1), (1, -1))]
+    for (i0, j0), (sx, sy) in flips:
+        xv, yv = sx * (np.arange(n1) - j0) * dx, sy * (np.arange(n0) - i0) * dx
+        X, Y = np.meshgrid(xv, yv)
+        rd = RichData(a.copy(), dx, 0.5)
+        rd.x, rd.y = X, Y
+        for how, mk in ((f'setters{sx:+d}{sy:+d}', lambda ts: rd.slices(ts)), (f'direct{sx:+d}{sy:+d}', lambda ts: Slices(a, xv, yv, twosided=ts))):
+            s = R.call(mk, True)
+            if s is FAILED:
+                continue
+            R.expect_equal(s.x[1], a[i0, :], sig + ':shifted-origin:x', f'{how}: x slice is not the row of the zero y coordinate (row {i0} of {n0})')
+            R.expect_equal(s.y[1], a[:, j0], sig + ':shifted-origin:y', f'{how}: y slice is not the column of the zero x coordinate (column {j0} of {n1})')
+            s = R.call(mk, False)
+            if s is FAILED:
+                continue
+            R.expect_equal(s.x[1], a[i0, j0:], sig + ':shifted-origin:x1', f'{how}: one-sided x slice, origin at {(i0, j0)}')
+            R.expect_equal(s.y[1], a[i0:, j0], sig + ':shifted-origin:y1', f'{how}: one-sided y slice, origin at {(i0, j0)}')
+            R.expect(len(s.x[0]) > 0 and s.x[0][0] == 0 and len(s.y[0]) > 0 and s.y[0][0] == 0, sig + ':shifted-origin:onesided-origin',
+                     f'{how}: one-sided slice does not start at coordinate 0 (origin at {(i0, j0)})')
     R.nontrivial(n0 * n1 > 1)
     R.outcome('slices')
 
